@@ -323,7 +323,7 @@ def run_threads_case(case, ctx):
     counters, viols = {}, []
     h = Harness(ctx.scratch, case["id"], counters, case["pop"], 2)
     n, m = case["threads"], case["per_thread"]
-    h.sources = ["https://t%d-aa%02d.example.org/aa" % (t, i) for t in range(n) for i in range(m)]
+    h.sources = ["https://bystander-source.example.org/aa"]
     h.compare_every = 10 ** 9
     try:
         h.apply(("set", 1, h.sources[0], 500, "int", {"role": ["bystander"]}))          # another subject that must stay as it is
@@ -334,11 +334,18 @@ def run_threads_case(case, ctx):
         mem_only = [(n_, b_) for n_, b_ in h.backends() if n_ == "memory"]
         h.backends = lambda: mem_only
 
+        gens = [0] * n
+        stored = [[] for _ in range(n)]
+
         def worker(t):
             def run():
+                # (every injection regime calls this again: new sources each time, so that a later pass cannot put back what an earlier one lost)
+                g = gens[t]
+                gens[t] += 1
                 for i in range(m):
-                    e = "https://t%d-aa%02d.example.org/aa" % (t, i)
-                    info = {"ava": {"role": ["r-%d-%d" % (t, i)]}, "name_id": h.nid(0), "not_on_or_after": h.now + 1000, "session_index": "idx-%d-%d" % (t, i)}
+                    e = "https://t%d-g%d-aa%02d.example.org/aa" % (t, g, i)
+                    stored[t].append((e, "r-%d-%d-%d" % (t, g, i), "idx-%d-%d-%d" % (t, g, i)))
+                    info = {"ava": {"role": ["r-%d-%d-%d" % (t, g, i)]}, "name_id": h.nid(0), "not_on_or_after": h.now + 1000, "session_index": "idx-%d-%d-%d" % (t, g, i)}
                     for name, b in h.backends():
                         if h.via_population:
                             si = dict(info)
@@ -353,11 +360,11 @@ def run_threads_case(case, ctx):
         for e in errs:
             if e is not None:
                 viols.append({"key": "C19/concurrent-store-raised", "what": "%d threads storing for one subject: %r" % (n, e)})
+        h.sources = [h.sources[0], "https://first.example.org/aa"] + [e for t in range(n) for (e, r_, x_) in stored[t]]
+        counters["concurrent_sets"] = sum(len(x) for x in stored)
         for t in range(n):
-            for i in range(m):
-                e = "https://t%d-aa%02d.example.org/aa" % (t, i)
-                h.model.setdefault(0, {})[e] = (h.now + 1000, {"ava": {"role": ["r-%d-%d" % (t, i)]}, "name_id": h.nid(0), "not_on_or_after": h.now + 1000,
-                                                               "session_index": "idx-%d-%d" % (t, i)})
+            for (e, role, idx) in stored[t]:
+                h.model.setdefault(0, {})[e] = (h.now + 1000, {"ava": {"role": [role]}, "name_id": h.nid(0), "not_on_or_after": h.now + 1000, "session_index": idx})
         if not viols:
             h.compare()
     except Violation as v:
